@@ -243,6 +243,7 @@ def r_loop_state(ck: Checker) -> None:
 
 # (function, key) -> why the remembered answer may ignore the other varying values (confirmed by reading)
 MEMO_TRIAGE = {
+    ("literal_duplication:LiteralCollector.process", "rule_builder.ruleid"): "by design a statement is rewritten at most once per round (the occurrences recorded for it refer to its body as it was): the set remembers statements, not occurrences",
     ("math_simplification:Goebner.simplify_equalities", "solve_for"): "by design a needed variable is defined by ONE equation: once an expression was solved for it, no other expression is (the expression only decides which equation that is)",
 }
 
@@ -310,8 +311,25 @@ def r_memo_key(ck: Checker) -> None:
             skipped = list(miss) + list(following)
             if not skipped:
                 continue
-            used = set().union(*[_names(s) for s in skipped]) if skipped else set()
-            covered = _names(key) | _names(store)
+            # names that occur in the skipped statements OUTSIDE of occurrences of the key expression itself
+            # (`term.name` as key covers `term.name`, not `term.arguments`)
+            kdump = ast.dump(key)
+
+            def outside_key(tree: ast.AST) -> set[str]:
+                out: set[str] = set()
+                todo = [tree]
+                while todo:
+                    cur_ = todo.pop()
+                    if isinstance(cur_, ast.expr) and ast.dump(cur_) == kdump:
+                        continue
+                    if isinstance(cur_, ast.Name):
+                        out.add(cur_.id)
+                    todo.extend(ast.iter_child_nodes(cur_))
+                return out
+
+            plain_key = isinstance(key, ast.Name) or (isinstance(key, ast.Tuple) and all(isinstance(e, ast.Name) for e in key.elts))
+            used = set().union(*[(_names(s) if plain_key else outside_key(s)) for s in skipped]) if skipped else set()
+            covered = (_names(key) if plain_key else set()) | _names(store)
             # what varies between two executions of the guard
             varying: set[str] = set()
             if loop is not None and isinstance(loop, ast.For):
@@ -340,8 +358,11 @@ def r_memo_key(ck: Checker) -> None:
             # ... unless they are computed from the key alone
             for _ in range(3):
                 for s in ast.walk(func.node):
-                    if isinstance(s, ast.Assign) and len(s.targets) == 1 and isinstance(s.targets[0], ast.Name) and _names(s.value) & covered and not (_names(s.value) & varying) - covered:
-                        covered.add(s.targets[0].id)
+                    if isinstance(s, ast.Assign) and len(s.targets) == 1 and isinstance(s.targets[0], ast.Name):
+                        vn = _names(s.value) if plain_key else outside_key(s.value)
+                        mentions_key = bool(_names(s.value) & covered) or (not plain_key and kdump in ast.dump(s.value))
+                        if mentions_key and not (vn & varying) - covered:
+                            covered.add(s.targets[0].id)
             loose = sorted((used & varying) - covered)
             n += 1
             ok = not loose
